@@ -20,12 +20,55 @@ class _Return(Exception):
         self.v = v
 
 
+class _Continue(Exception):
+    pass
+
+
+class _Break(Exception):
+    pass
+
+
+class Scope(dict):
+    """variables of one lexical scope; lookups fall through to the enclosing scopes, assignments update the scope that defines the name"""
+
+    def __init__(self, parent=None, init=None):
+        super().__init__(init or {})
+        self.parent = parent
+
+    def __contains__(self, k):
+        return dict.__contains__(self, k) or (self.parent is not None and k in self.parent)
+
+    def __getitem__(self, k):
+        if dict.__contains__(self, k):
+            return dict.__getitem__(self, k)
+        if self.parent is not None:
+            return self.parent[k]
+        raise KeyError(k)
+
+    def get(self, k, d=None):
+        return self[k] if k in self else d
+
+    def assign(self, k, v):
+        s_ = self
+        while s_ is not None:
+            if dict.__contains__(s_, k):
+                dict.__setitem__(s_, k, v)
+                return True
+            s_ = s_.parent if isinstance(s_, Scope) else None
+        return False
+
+
+def _child(env):
+    return Scope(env) if isinstance(env, Scope) else Scope(None, env)
+
+
 class SmallEval:
     def __init__(self, funcs=None, consts=None, methods=None, local_fns=None):
         self.funcs = funcs or {}
         self.consts = consts or {}
         self.methods = methods or {}
         self.local_fns = local_fns      # name -> syntactic fn node: private helpers that may be folded as well
+        self.local_methods = {}         # name -> syntactic fn node with a `self` receiver (set by the rule)
         self._depth = 0
 
     # ---- entry ----
@@ -39,7 +82,7 @@ class SmallEval:
             names.append(pat["name"])
         if len(names) != len(args):
             raise NoEval("arity")
-        env = dict(zip(names, args))
+        env = Scope(None, dict(zip(names, args)))
         try:
             return self.ev(fn["body"], env)
         except _Return as r:
@@ -51,7 +94,7 @@ class SmallEval:
             return ("unit",)
         k = e.get("k")
         if k == "block":
-            env = dict(env)
+            env = _child(env)
             last = ("unit",)
             for i, s in enumerate(e["stmts"]):
                 sk = s.get("k")
@@ -111,6 +154,61 @@ class SmallEval:
             raise NoEval(f"field {e['name']}")
         if k == "tuple":
             return ("tuple", [self.ev(x, env) for x in e["elems"]])
+        if k == "struct":
+            d = {"__struct__": e["p"].split("::")[-1]}
+            for fname, fv in e["fields"]:
+                d[fname] = self.ev(fv, env)
+            if e.get("rest"):
+                base = self.ev(e["rest"], env)
+                if isinstance(base, dict):
+                    for kk, vv in base.items():
+                        d.setdefault(kk, vv)
+            return d
+        if k == "closure":
+            return ("closure", e, env)
+        if k == "for":
+            it = self.ev(e["iter"], env)
+            if not (isinstance(it, tuple) and it and it[0] == "list"):
+                raise NoEval("for over a non-collection")
+            for x in list(it[1]):
+                env2 = _child(env)
+                if not self.bind(e["pat"], x, env2):
+                    raise NoEval("refutable for pattern")
+                try:
+                    self.ev(e["body"], env2)
+                except _Continue:
+                    continue
+                except _Break:
+                    break
+            return ("unit",)
+        if k == "continue":
+            raise _Continue()
+        if k == "break":
+            raise _Break()
+        if k == "try":
+            v = self.ev(e["e"], env)
+            if isinstance(v, tuple) and v and v[0] == "Err":
+                raise _Return(v)
+            if isinstance(v, tuple) and v and v[0] == "Ok":
+                return v[1]
+            if v is None:
+                raise _Return(None)
+            if isinstance(v, tuple) and v and v[0] == "Some":
+                return v[1]
+            raise NoEval("`?` on a value that is neither Result nor Option")
+        if k == "assign":
+            val = self.ev(e["r"], env)
+            tgt = strip(e["l"])
+            if tgt.get("k") == "path" and "::" not in tgt["p"]:
+                if not (isinstance(env, Scope) and env.assign(tgt["p"], val)):
+                    env[tgt["p"]] = val
+                return ("unit",)
+            if tgt.get("k") == "field":
+                base = self.ev(tgt["base"], env)
+                if isinstance(base, dict):
+                    base[tgt["name"]] = val
+                    return ("unit",)
+            raise NoEval(f"assignment to `{src(tgt)[:30]}`")
         if k == "return":
             raise _Return(self.ev(e.get("e"), env) if e.get("e") else ("unit",))
         if k == "binary":
@@ -143,7 +241,7 @@ class SmallEval:
             c = e["c"]
             if c.get("k") == "let":
                 v = self.ev(c["e"], env)
-                env2 = dict(env)
+                env2 = _child(env)
                 if self.bind(c["pat"], v, env2):
                     return self.ev(e["then"], env2)
                 return self.ev(e["else"], env) if e.get("else") else ("unit",)
@@ -153,19 +251,42 @@ class SmallEval:
         if k == "match":
             v = self.ev(e["e"], env)
             for a in e["arms"]:
-                env2 = dict(env)
+                env2 = _child(env)
                 if self.bind(a["pat"], v, env2):
                     if a.get("guard") is not None and not self._bool(self.ev(a["guard"], env2)):
                         continue
                     return self.ev(a["body"], env2)
             raise NoEval("no match arm applies")
+        if k == "call" and (src(e["f"]).endswith("into_vec") or src(e["f"]).endswith("box_assume_init_into_vec_unsafe")):
+            from .common import walk as _walk
+            arrs = [n for n in _walk(e) if n.get("k") == "array"]
+            if arrs:
+                return ("list", [self.ev(a, env) for a in arrs[0]["elems"]])
+            raise NoEval("vec! expansion without an array")
+        if k == "array":
+            return ("list", [self.ev(a, env) for a in e["elems"]])
         if k == "call":
             f = e["f"]
+            if f.get("k") == "path" and f["p"] in env and isinstance(env[f["p"]], tuple) and env[f["p"]] and env[f["p"]][0] == "closure":
+                _, cl, cenv = env[f["p"]]
+                args = [self.ev(a, env) for a in e["args"]]
+                env2 = _child(cenv)
+                if len(cl["params"]) != len(args) or not all(self.bind(p_, a_, env2) for p_, a_ in zip(cl["params"], args)):
+                    raise NoEval("closure call")
+                return self.ev(cl["body"], env2)
             if f.get("k") == "path":
                 name = f["p"]
                 args = [self.ev(a, env) for a in e["args"]]
                 if name == "Some" and len(args) == 1:
                     return ("Some", args[0])
+                if name in ("Ok", "Err") and len(args) == 1:
+                    return (name, args[0])
+                if name.split("<")[0].endswith(("BTreeMap::new", "HashMap::new")) and not args:
+                    return ("map", {})
+                if name.endswith("Vec::new") and not args:
+                    return ("list", [])
+                if name.endswith("Vec::with_capacity") and len(args) == 1:
+                    return ("list", [])
                 if name in ("Box::from", "Box::new", "String::from") and len(args) == 1:
                     return args[0]
                 last = name.split("::")[-1]
@@ -183,22 +304,139 @@ class SmallEval:
             m = e["m"]
             recv = self.ev(e["recv"], env)
             args = e["args"]
-            if m in ("clone", "as_ref", "to_owned", "deref", "borrow", "copied", "cloned", "as_deref") and not args:
+            if m in ("clone", "to_owned") and not args and isinstance(recv, dict):
+                return dict(recv)
+            if m in ("clone", "to_owned", "to_vec") and not args and isinstance(recv, tuple) and recv and recv[0] == "list":
+                return ("list", list(recv[1]))
+            if m in ("clone",) and not args and isinstance(recv, tuple) and recv and recv[0] == "map":
+                return ("map", dict(recv[1]))
+            if m in ("clone", "as_ref", "to_owned", "deref", "borrow", "copied", "cloned", "as_deref", "as_mut", "borrow_mut") and not args:
                 return recv
-            if isinstance(recv, tuple) and recv and recv[0] == "list":
-                if m in ("iter", "into_iter", "collect", "to_vec") and len(args) <= 0:
+            if isinstance(recv, dict) and m in self.local_methods and self._depth < 4:
+                fn_ = self.local_methods[m]
+                self._depth += 1
+                try:
+                    return self.call(fn_, [recv] + [self.ev(a, env) for a in args])
+                finally:
+                    self._depth -= 1
+            if isinstance(recv, tuple) and recv and recv[0] in ("Ok", "Err") and m in ("map", "map_err", "and_then", "ok", "is_ok", "is_err") and len(args) <= 1:
+                if m == "is_ok":
+                    return recv[0] == "Ok"
+                if m == "is_err":
+                    return recv[0] == "Err"
+                if m == "ok":
+                    return ("Some", recv[1]) if recv[0] == "Ok" else None
+                a0 = strip(args[0])
+                applies = (m in ("map", "and_then") and recv[0] == "Ok") or (m == "map_err" and recv[0] == "Err")
+                if not applies:
                     return recv
+                if a0.get("k") == "closure":
+                    env2 = _child(env)
+                    if len(a0["params"]) != 1 or not self.bind(a0["params"][0], recv[1], env2):
+                        raise NoEval("closure parameter")
+                    r = self.ev(a0["body"], env2)
+                elif a0.get("k") == "path":
+                    f_ = self.funcs.get(a0["p"]) or self.funcs.get(a0["p"].split("::")[-1])
+                    r = f_(recv[1]) if f_ is not None else recv[1]          # a conversion function (`ParseErr::from`): identity on abstract values
+                else:
+                    raise NoEval(f"argument of .{m}()")
+                return r if m == "and_then" else (recv[0], r)
+            if isinstance(recv, tuple) and recv and recv[0] == "map":
+                if m == "get" and len(args) == 1:
+                    k_ = self.ev(args[0], env)
+                    return ("Some", recv[1][k_]) if k_ in recv[1] else None
+                if m == "contains_key" and len(args) == 1:
+                    return self.ev(args[0], env) in recv[1]
+                if m == "insert" and len(args) == 2:
+                    k_, v_ = self.ev(args[0], env), self.ev(args[1], env)
+                    old_ = ("Some", recv[1][k_]) if k_ in recv[1] else None
+                    recv[1][k_] = v_
+                    return old_
+                if m in ("values", "into_values") and not args:
+                    return ("list", [recv[1][k_] for k_ in sorted(recv[1], key=repr)])
+                if m in ("clone",) and not args:
+                    return ("map", dict(recv[1]))
+                if m == "is_empty" and not args:
+                    return not recv[1]
+                if m == "len" and not args:
+                    return len(recv[1])
+                raise NoEval(f"map method .{m}()")
+            if isinstance(recv, tuple) and recv and recv[0] == "list":
+                if m in ("to_vec", "clone", "to_owned") and not args:
+                    return ("list", list(recv[1]))
+                if m == "contains" and len(args) == 1:
+                    return self.ev(args[0], env) in recv[1]
+                if m == "chain" and len(args) == 1:
+                    o = self.ev(args[0], env)
+                    if not (isinstance(o, tuple) and o and o[0] == "list"):
+                        raise NoEval("chain with a non-collection")
+                    return ("list", list(recv[1]) + list(o[1]))
+                if m in ("sorted_by_key", "sorted_by_cached_key") and len(args) == 1 and strip(args[0]).get("k") == "closure":
+                    cl = strip(args[0])
+
+                    def key_(x, cl=cl):
+                        env2 = _child(env)
+                        if len(cl["params"]) != 1 or not self.bind(cl["params"][0], x, env2):
+                            raise NoEval("closure parameter")
+                        return repr(self.ev(cl["body"], env2))
+                    return ("list", sorted(recv[1], key=key_))
+                if m in ("iter", "into_iter", "collect", "peekable", "iter_mut", "drain") and len(args) <= 0:
+                    return recv
+                if m == "push" and len(args) == 1:
+                    recv[1].append(self.ev(args[0], env))
+                    return ("unit",)
+                if m == "extend" and len(args) == 1:
+                    o = self.ev(args[0], env)
+                    if not (isinstance(o, tuple) and o and o[0] == "list"):
+                        raise NoEval("extend with a non-collection")
+                    recv[1].extend(o[1])
+                    return ("unit",)
+                if m in ("first", "last") and not args:
+                    return ("Some", recv[1][0 if m == "first" else -1]) if recv[1] else None
                 if m == "map" and len(args) == 1 and strip(args[0]).get("k") == "closure":
                     cl = strip(args[0])
                     out = []
                     for x in recv[1]:
-                        env2 = dict(env)
+                        env2 = _child(env)
                         if len(cl["params"]) != 1 or not self.bind(cl["params"][0], x, env2):
                             raise NoEval("closure parameter")
                         out.append(self.ev(cl["body"], env2))
                     return ("list", out)
                 if m == "len" and not args:
                     return len(recv[1])
+                if m == "is_empty" and not args:
+                    return len(recv[1]) == 0
+                if m in ("cloned", "copied") and not args:
+                    return recv
+                if m == "union" and len(args) == 1:
+                    o = self.ev(args[0], env)
+                    if not (isinstance(o, tuple) and o and o[0] == "list"):
+                        raise NoEval("union with a non-collection")
+                    out = list(recv[1])
+                    for x in o[1]:
+                        if x not in out:
+                            out.append(x)
+                    return ("list", out)
+                if m in ("any", "all", "filter", "map") and len(args) == 1:
+                    a0 = strip(args[0])
+                    if a0.get("k") == "closure":
+                        def ap(x, cl=a0):
+                            env2 = _child(env)
+                            if len(cl["params"]) != 1 or not self.bind(cl["params"][0], x, env2):
+                                raise NoEval("closure parameter")
+                            return self.ev(cl["body"], env2)
+                    elif a0.get("k") == "path" and (a0["p"] in self.funcs or a0["p"].split("::")[-1] in self.funcs):
+                        f_ = self.funcs.get(a0["p"]) or self.funcs[a0["p"].split("::")[-1]]
+                        ap = f_
+                    else:
+                        raise NoEval(f"argument of .{m}()")
+                    if m == "any":
+                        return any(self._bool(ap(x)) for x in recv[1])
+                    if m == "all":
+                        return all(self._bool(ap(x)) for x in recv[1])
+                    if m == "filter":
+                        return ("list", [x for x in recv[1] if self._bool(ap(x))])
+                    return ("list", [ap(x) for x in recv[1]])
             if m == "is_some" and not args:
                 self._opt(recv)
                 return recv is not None
@@ -215,7 +453,7 @@ class SmallEval:
                     if m == "map_or":
                         return self.ev(args[0], env)
                     return False if m == "is_some_and" else None
-                env2 = dict(env)
+                env2 = _child(env)
                 if len(cl["params"]) != 1 or not self.bind(cl["params"][0], recv[1], env2):
                     raise NoEval("closure parameter")
                 r = self.ev(cl["body"], env2)
@@ -269,9 +507,36 @@ class SmallEval:
         if k == "ppath":
             if p["p"] == "None":
                 return v is None
+            if isinstance(v, tuple) and v and v[0] == "variant":
+                return v[1] == p["p"] or v[1].split("::")[-1] == p["p"].split("::")[-1]
             return v == self.consts.get(p["p"], p["p"])
         if k == "plit":
             return v == self.ev(p["e"], {})
+        if k == "pstruct":
+            # an enum variant / struct pattern against ("variant", "Core::Or", {fields}) or a dict with __struct__
+            want = p["p"]
+            if isinstance(v, tuple) and v and v[0] == "variant":
+                if v[1] != want and v[1].split("::")[-1] != want.split("::")[-1]:
+                    return False
+                fields = v[2] if len(v) > 2 else {}
+            elif isinstance(v, dict) and v.get("__struct__") == want.split("::")[-1]:
+                fields = v
+            elif isinstance(v, dict) or (isinstance(v, tuple) and v and v[0] in ("Some", "tuple", "list")) or v is None:
+                return False
+            else:
+                raise NoEval(f"pattern `{src(p)[:40]}` against `{str(v)[:30]}`")
+            for fname, fp in p["fields"]:
+                if fname in fields:
+                    if not self.bind(fp, fields[fname], env):
+                        return False
+                elif fp.get("k") == "pwild":
+                    continue
+                else:
+                    for m_ in [fp] if fp.get("k") == "pident" else []:
+                        env[m_["name"]] = ("unknown", fname)
+                    if fp.get("k") not in ("pident", "pwild"):
+                        raise NoEval(f"field pattern `{src(fp)[:30]}` on an abstract value")
+            return True
         if k == "ptstruct":
             if p["p"] == "Some" and len(p["elems"]) == 1:
                 if v is None:
@@ -279,6 +544,27 @@ class SmallEval:
                 if not (isinstance(v, tuple) and v and v[0] == "Some"):
                     raise NoEval("Some(..) pattern against a non-Option")
                 return self.bind(p["elems"][0], v[1], env)
+            if isinstance(v, tuple) and v and v[0] == "variant":
+                if v[1] != p["p"] and v[1].split("::")[-1] != p["p"].split("::")[-1]:
+                    return False
+                payload = v[2] if len(v) > 2 and isinstance(v[2], list) else []
+                for i_, pe in enumerate(p["elems"]):
+                    if pe.get("k") == "pwild" or pe.get("k") == "prest":
+                        continue
+                    if i_ < len(payload):
+                        if not self.bind(pe, payload[i_], env):
+                            return False
+                    elif pe.get("k") == "pident":
+                        env[pe["name"]] = ("unknown", i_)
+                    else:
+                        raise NoEval(f"pattern `{src(p)[:40]}` on an abstract payload")
+                return True
+            if p["p"] in ("Ok", "Err") and len(p["elems"]) == 1:
+                if not (isinstance(v, tuple) and v and v[0] in ("Ok", "Err")):
+                    raise NoEval("Ok/Err pattern against a non-Result")
+                return v[0] == p["p"] and self.bind(p["elems"][0], v[1], env)
+            if v is None or isinstance(v, (dict, str, int)):
+                return False
             raise NoEval(f"pattern `{src(p)}`")
         if k == "ptuple":
             if not (isinstance(v, tuple) and v and v[0] == "tuple" and len(v[1]) == len(p["elems"])):
@@ -286,7 +572,7 @@ class SmallEval:
             return all(self.bind(pe, ve, env) for pe, ve in zip(p["elems"], v[1]))
         if k == "por":
             for c in p["cases"]:
-                e2 = dict(env)
+                e2 = _child(env)
                 if self.bind(c, v, e2):
                     env.update(e2)
                     return True
